@@ -2,11 +2,11 @@
 # tools/seedingest.sh Cxx [offset] : copy /tmp/seed-Cxx/out/{1,2} to seeded/Cxx-k/, verify each independently, then drop the scratch worktree
 p="$1"; off="${2:-0}"
 for k in 1 2; do
-  src=/tmp/seed-$p/out/$k
+  src=/tmp/${SEEDPREFIX:-seed}-$p/out/$k
   [ -d "$src" ] || continue
   dst=/verif/seeded/$p-$((k+off))
   mkdir -p "$dst"
   cp "$src"/patch.diff "$dst"/ ; cp "$src"/seed_demo_*.rs "$dst"/ 2>/dev/null; cp "$src"/README.md "$dst"/ 2>/dev/null
   echo "== $p-$((k+off))"; /verif/tools/seedverify.sh "$dst" 2>&1 | tee "$dst/verify.log" | grep -E "^(APPLY|LIBTESTS|DEMO)"
 done
-git -C /repo worktree remove --force /tmp/seed-$p 2>/dev/null; rm -rf /tmp/seed-$p
+git -C /repo worktree remove --force /tmp/${SEEDPREFIX:-seed}-$p 2>/dev/null; rm -rf /tmp/${SEEDPREFIX:-seed}-$p
